@@ -19,6 +19,8 @@ Histories (inside the quantifier, reported through `fail`): each of the three op
         re-compared after every later call, the stored elemental variables are snapshotted before / after every call
         (both go into the replay as a trace that names the call which changed them; a clause of C18 is evaluated with
         the arrays the caller holds, so a later call that corrupts them is reported through that clause).
+Absolute scale (round 4, seeded C18-7): stream `absolute-scale` - the same meshes scaled exactly by 2^-20 .. 2^10 for all three
+        operations, tolerances relative to the scaled size, sign of the fresh volume exact.
 """
 import itertools
 from fractions import Fraction as F
@@ -59,7 +61,12 @@ RULE = ('(a) to_polyhedron: seeded geometric meshes (tet / hex / prism / pyr / m
         'operation repeated; elsewhere histories are random (volume / metric queries with every combination of '
         'raise_negative_*, return_abs_*, mode; "themed" sequences toggling return_abs on one function; surface / facet '
         'extraction, surface normals, incidence / adjacency matrices, elemental->nodal conversion; the operation itself '
-        'once more). Results are judged against independently rebuilt fresh objects only. non-trivial = storage order '
+        'once more). Results are judged against independently rebuilt fresh objects only. Stream `absolute-scale` (round 4): the '
+        'same generator meshes scaled exactly by 2^-20, 2^-15, 2^-10, 2^-7, 2^-3, 2^4, 2^10 (element volumes 1e-19 .. 1e+10) x all '
+        'three operations with and without histories - to_polyhedron (all kinds), resolve_degeneracy (random collapsed subsets), '
+        'make_elements_positive (every subset of a 6-tet mesh with the scales rotating over the subsets - thorough: every subset at '
+        'every scale -, random subsets, positive hex / prism / mixed meshes); volume tolerances relative to max|coordinate|^3 of the '
+        'SCALED mesh (no floor), sign of the fresh volume exact from the rational coordinates. non-trivial = storage order '
         'differs from ascending ids (a), at least one degenerate hex (b), at least one inverted tet (c)')
 ASSUMPTIONS = [
     'volumes are evaluated on fresh objects built from copies of the result\'s arrays (what the live object has stored '
@@ -67,12 +74,49 @@ ASSUMPTIONS = [
     'original per-element volumes are evaluated block by block on a fresh object (independent of the `mix` branch of '
     'calculate_element_volumes, which belongs to C11)',
     'node ids < 2^31 (to_polyhedron casts connectivity to int32)',
+    'absolute scale: every clause of C18 is homogeneous under uniform scaling, so it is asserted unchanged on meshes scaled by '
+    '2^-20 .. 2^10; in that stream tolerances are relative to max|coordinate|^3 without the floor of 1 the other streams keep '
+    '(d_util.scale), and "non-negative" is decided exactly (a flat element has volume exactly 0 - none is generated)',
     'a prior query that raises (ValueError of raise_negative_*=True on an inverted mesh, NotImplementedError of the '
     'pyramid metric, anything on a degenerate hexahedron) is part of the history, not a C18 failure: the history goes on',
 ]
 TRUSTED = ['C18: harness/meshgen.py face tables are the oracle\'s independent definition of an element\'s boundary']
 
 PATTERNS = {'01': (0, 1), '12': (1, 2), '23': (2, 3), '30': (3, 0)}
+
+# ------------------------------------------------------------------ absolute scale (round 4, class J; seeded C18-7)
+#
+# The clauses of C18 are homogeneous: scaling a mesh by s multiplies every volume by s^3 and changes neither node sets, face
+# lists, collapse patterns nor orientations.  A volume is a DIMENSIONAL quantity - a part meshed in metres with millimetre cells
+# has element volumes of 1e-9 and below, one meshed in millimetres 1e+9 times that - so any absolute threshold on it inside femio
+# (np.isclose(metric, 0.) with its default atol=1e-8, `< 1e-10`, ...) silently changes the behaviour at small sizes.  Stream
+# `absolute-scale`: the same generator meshes scaled EXACTLY by powers of two 2^-20 .. 2^10 (binary64 coordinates scale without
+# rounding), all three operations (with and without prior histories), judged by the same oracles with every volume tolerance
+# relative to the scaled size (max|coordinate|^3 WITHOUT the floor of 1 that `d_util.scale` has) and the sign of the fresh
+# volume decided exactly from the rational coordinates.
+ABS_EXPONENTS = [-20, -15, -10, -7, -3, 4, 10]
+
+
+def scaled(m, e):
+    """the mesh under the uniform scaling by 2^e"""
+    s = F(2) ** e
+    out = dict(m)
+    out['nodes'] = [(i, tuple(F(v) * s for v in p)) for i, p in m['nodes']]
+    out['abs_exp'] = e
+    return out
+
+
+def mesh_scale(m):
+    if 'abs_exp' in m:
+        return max(abs(float(v)) for _, p in m['nodes'] for v in p) ** 3
+    return U.scale(m)
+
+
+def mesh_case(m, **kw):
+    case = U.mesh_case(m, **kw)
+    if 'abs_exp' in m:
+        case['abs_exp'] = m['abs_exp']
+    return case
 
 
 # ------------------------------------------------------------------ histories of public calls on ONE object
@@ -269,6 +313,11 @@ def count_history(ctx, op, hist, trace):
             ctx.count(f'history:stored:{k}:{v}')
 
 
+def count_scale(ctx, op, m):
+    if 'abs_exp' in m:
+        ctx.count(f'absolute-scale:{op}:2^{m["abs_exp"]}')
+
+
 def source_unchanged(fd, m):
     """nodes / element blocks of the live source object still describe the generated mesh"""
     try:
@@ -350,7 +399,7 @@ def poly_oracle(ctx, m, obs, case):
     ids = [i for i, _ in m['nodes']]
     X = U.coords_exact(m)
     els = {e: (t, c) for t, e, c in U.elem_list(m)}
-    sc = U.scale(m)
+    sc = mesh_scale(m)
     if sorted(obs['ids']) != sorted(els) or obs['types'] != ['polyhedron'] or obs['node_ids'] != ids:
         ctx.fail('poly:ids-changed', 'to_polyhedron() changed the element ids / nodes', case, {'ids': obs['ids'][:8]})
         return
@@ -424,7 +473,7 @@ def poly_correspond(ctx, m, obs, case, tally):
         ctx.disagree('to_polyhedron face data differs from Cfg.fixed' + (' (tree behaves as Cfg.upstream = F10, argsort omitted for pyr)' if same_up else ''),
                      case, impl[k] if k < len(impl) else None, list(res[1][k][:3]) if k < len(res[1]) else None)
         return
-    sc = U.scale(m)
+    sc = mesh_scale(m)
     for k, (e, _, _, vl, vc, ol, oc) in enumerate(res[1]):
         if not U.close(vc, obs['vol_centroid'][k], U.TOL_CENTROID * sc) or not U.close(vl, obs['vol_linear'][k], U.TOL_LINEAR * sc):
             ctx.disagree('polyhedron volume kernels', case, [obs['vol_centroid'][k], obs['vol_linear'][k]], [float(vc), float(vl)])
@@ -436,7 +485,7 @@ def poly_correspond(ctx, m, obs, case, tally):
 
 def poly_case(ctx, m, tally, hist=()):
     hist = list(hist)
-    case = U.mesh_case(m, op='to_polyhedron')
+    case = mesh_case(m, op='to_polyhedron')
     ids = [i for i, _ in m['nodes']]
     key = ('poly', tuple(m['nodes']), tuple((t, tuple((e, tuple(c)) for e, c in b)) for t, b in m['blocks'].items()))
     if hist:
@@ -448,6 +497,7 @@ def poly_case(ctx, m, tally, hist=()):
         return
     ctx.case(key, sample={**G.describe(m), 'op': 'to_polyhedron', **({'history': hist} if hist else {})}, nontrivial=ids != sorted(ids))
     ctx.count('poly:kind:' + m['kind'])
+    count_scale(ctx, 'poly', m)
     ctx.count('poly:order:' + m['order'])
     ctx.count('poly:ids:' + str(m.get('id_style')))
     for t in m['blocks']:
@@ -489,9 +539,11 @@ def shrink_poly(m, eid, signature):
     for keep_all in (False, True):
         m2 = {'nodes': [(i, p) for i, p in m['nodes'] if keep_all or i in set(c)], 'blocks': {t: [(eid, list(c))]},
               'kind': m['kind'], 'order': m['order']}
+        if 'abs_exp' in m:
+            m2['abs_exp'] = m['abs_exp']
         col = _Collect()
         try:
-            case = U.mesh_case(m2, op='to_polyhedron', shrunk_from=G.describe(m))
+            case = mesh_case(m2, op='to_polyhedron', shrunk_from=G.describe(m))
             poly_oracle(col, m2, poly_real(m2), case)
         except Exception:  # noqa
             continue
@@ -544,7 +596,7 @@ HEX_FACES = G.FACES['hex']
 
 def degen_oracle(ctx, m, pats, obs, case):
     X = U.coords_exact(m)
-    sc = U.scale(m)
+    sc = mesh_scale(m)
     before = {e: (t, c) for t, e, c in U.elem_list(m)}
     after = {}
     for t, b in obs['blocks'].items():
@@ -604,7 +656,7 @@ def degen_correspond(ctx, m, obs, case):
 
 def degen_case(ctx, m, pats, stream='main', hist=()):
     hist = list(hist)
-    case = U.mesh_case(m, op='resolve_degeneracy', patterns={str(k): v for k, v in pats.items()})
+    case = mesh_case(m, op='resolve_degeneracy', patterns={str(k): v for k, v in pats.items()})
     key = ('degen', tuple(m['nodes']), tuple((t, tuple((e, tuple(c)) for e, c in b)) for t, b in m['blocks'].items()))
     if hist:
         case['history'] = hist
@@ -619,6 +671,7 @@ def degen_case(ctx, m, pats, stream='main', hist=()):
         ctx.count('degen:pattern:' + p)
     ctx.count('degen:types:' + '+'.join(m['blocks']))
     ctx.count('degen:stream:' + stream)
+    count_scale(ctx, 'degen', m)
     count_history(ctx, 'degen', hist, obs['trace'])
     if not obs.get('source_unchanged', True):
         ctx.count('degen:source-object-changed')
@@ -669,7 +722,7 @@ def positive_real(m, hist=()):
 
 def positive_oracle(ctx, m, obs, case):
     rows = m['blocks']['tet']
-    sc = U.scale(m)
+    sc = mesh_scale(m)
     X = U.coords_exact(m)
     if obs['ids'] != [e for e, _ in rows] or obs['block'] != obs['conn'] or obs['node_ids'] != [i for i, _ in m['nodes']]:
         ctx.fail('positive:ids-changed', 'make_elements_positive() changed element / node ids or left the block inconsistent', case, {})
@@ -709,7 +762,7 @@ def positive_correspond(ctx, m, obs, case):
         k = next((i for i, (x, y) in enumerate(zip(after, zip(obs['ids'], obs['conn']))) if x != y), 0)
         ctx.disagree('connectivity after make_elements_positive()', case, (obs['ids'][k], obs['conn'][k]), after[k])
         return after
-    sc = U.scale(m)
+    sc = mesh_scale(m)
     for k in range(len(vb)):
         if not U.close(vb[k], obs['before'][k], U.TOL_LINEAR * sc) or not U.close(va[k], obs['fresh'][k], U.TOL_LINEAR * sc):
             ctx.disagree('tet volumes before / after', case, [obs['before'][k], obs['fresh'][k]], [float(vb[k]), float(va[k])])
@@ -759,7 +812,7 @@ def history_correspond(ctx, m, obs, case, hist, tally):
 
 def positive_case(ctx, m, subset, label, hist=(), tally=None):
     hist = list(hist)
-    case = U.mesh_case(m, op='make_elements_positive', inverted=sorted(subset))
+    case = mesh_case(m, op='make_elements_positive', inverted=sorted(subset))
     key = ('pos', tuple(m['nodes']), tuple((e, tuple(c)) for e, c in m['blocks']['tet']))
     if hist:
         # history: the calls of `hist` on the object, then fd.make_elements_positive()
@@ -774,6 +827,7 @@ def positive_case(ctx, m, subset, label, hist=(), tally=None):
         sample['history'] = hist
     ctx.case(key, sample=sample, nontrivial=bool(subset))
     ctx.count('positive:' + label)
+    count_scale(ctx, 'positive', m)
     ctx.count('positive:order:' + m['order'])
     count_history(ctx, 'positive', hist, obs['trace'])
     if ctx.driver is not None:
@@ -791,7 +845,7 @@ def positive_case(ctx, m, subset, label, hist=(), tally=None):
 def positive_other_case(ctx, m):
     """make_elements_positive() on a positive mesh of other element types (empty subset of inverted elements): nothing
     may change.  femio has no metric for pyramids (NotImplementedError): labelled stream, never a failure."""
-    case = U.mesh_case(m, op='make_elements_positive_other')
+    case = mesh_case(m, op='make_elements_positive_other')
     key = ('pos-other', tuple(m['nodes']), tuple((t, tuple((e, tuple(c)) for e, c in b)) for t, b in m['blocks'].items()))
     fd = U.fresh(m)
     U.stage('make_elements_positive()')
@@ -905,12 +959,43 @@ def run(ctx):
     # (c'') positive meshes of the other element types: nothing to re-orient
     for k in range(ctx.n(6, 60)):
         positive_other_case(ctx, G.gen_geometric(rnd, kind=['hex', 'prism', 'mixed'][k % 3], max_cells=2))
+    # (d) stream `absolute-scale`: the same meshes scaled exactly by 2^-20 .. 2^10, all three operations
+    E = ABS_EXPONENTS
+    for k in range(ctx.n(14, 140) * boost):
+        m = G.gen_geometric(rnd, kind=kinds[k % 5], max_cells=2 if ctx.quick else 3, order=orders[(k // 5) % 3],
+                            id_style=rnd.choice(['dense', 'sparse', 'large', 'prefix']))
+        poly_case(ctx, scaled(m, E[k % len(E)]), {1: [0, 0], 0: [0, 0]}, gen_history(rnd) if k % 3 == 2 else [])
+    for k in range(ctx.n(14, 140) * boost):
+        m = G.gen_geometric(rnd, kind=['hex', 'mixed', 'hex', 'prism'][k % 4], max_cells=2 if ctx.quick else 3)
+        m2, pats = collapse(ctx, scaled(m, E[(k + 3) % len(E)]), p_deg=rnd.choice([.5, 1.0]))
+        degen_case(ctx, m2, pats, hist=gen_history(rnd) if k % 3 == 2 else [])
+    # every subset of inverted tets of a 6-tet mesh, the scales rotating over the subsets (thorough: every subset at every scale)
+    for rep in range(ctx.n(1, len(E))):
+        m = G.gen_geometric(rnd, kind='tet', max_cells=1, voids=False, order=orders[rep % 3])
+        n = len(m['blocks']['tet'])
+        subsets = [s_ for r in range(n + 1) for s_ in itertools.combinations(range(n), r)]
+        j = rnd.randrange(len(enum))
+        for q, subset in enumerate(subsets):
+            hist = enum[(j + q) % len(enum)] if q % 4 == 3 else []
+            positive_case(ctx, invert(scaled(m, E[(q + rep) % len(E)]), set(subset), SWAPS[-1]), subset,
+                          'absolute-scale:exhaustive-6-tets' + (':history' if hist else ''), hist=hist)
+    for k in range(ctx.n(21, 280) * boost):
+        m = G.gen_geometric(rnd, kind='tet', max_cells=2 if ctx.quick else 3)
+        n = len(m['blocks']['tet'])
+        subset = {i for i in range(n) if rnd.random() < rnd.choice([.1, .5, .9])}
+        hist = gen_history(rnd) if k % 2 else []
+        positive_case(ctx, invert(scaled(m, E[k % len(E)]), subset, SWAPS[-1]), subset,
+                      'absolute-scale:random-subset' + (':history' if hist else ''), hist=hist)
+    for k in range(ctx.n(7, 42)):
+        positive_other_case(ctx, scaled(G.gen_geometric(rnd, kind=['hex', 'prism', 'mixed'][k % 3], max_cells=2), E[k % len(E)]))
     ctx.extra['p_tie'] = {'tolerance_centroid': U.TOL_CENTROID, 'tolerance_linear': U.TOL_LINEAR, 'scale': 'max|coordinate|^3'}
 
 
 def replay(ctx, obj, record=False):
     inp = obj['input']
     m = G.from_json(inp['mesh'])
+    if 'abs_exp' in inp:
+        m['abs_exp'] = inp['abs_exp']
     n0, d0 = len(ctx.failures), len(ctx.disagreements)
     op = inp.get('op')
     hist = inp.get('history') or legacy_history(inp.get('prior_query'))
